@@ -176,7 +176,7 @@ def make_function(name: str, fspec: Dict[str, Any], env: Any = None, graves: Opt
 _ENV_ATTRS = ("nondeterministic", "max_recursion_depth", "min_int_index", "max_int_index")
 
 
-def make_env(spec: Dict[str, Any], graves: Optional[Dict[str, set]] = None) -> jp.JSONPathEnvironment:
+def make_env(spec: Dict[str, Any], graves: Optional[Dict[str, set]] = None, families: Optional[Dict[Any, Any]] = None) -> jp.JSONPathEnvironment:
     if spec.get("module"):
         return jp.DEFAULT_ENV
 
@@ -189,6 +189,27 @@ def make_env(spec: Dict[str, Any], graves: Optional[Dict[str, set]] = None) -> j
 
     attrs = {k: v for k, v in (spec.get("attrs") or {}).items() if k in _ENV_ATTRS}
     setup = spec.get("setup") or []
+    if spec.get("family") is not None:
+        # an inheritance chain: setup_function_extensions() is written ONCE, in the family's base
+        # class, and is driven by class attributes that the subclasses override
+        if families is None:
+            families = {}
+        base = families.get(spec["family"])
+        if base is None:
+
+            def family_setup(self: Any) -> None:
+                jp.JSONPathEnvironment.setup_function_extensions(self)
+                for name in type(self)._sim_drop:
+                    self.function_extensions.pop(name, None)
+                for name, fspec in type(self)._sim_setup:
+                    self.function_extensions[name] = make_function(name, fspec, self, graves)
+
+            base = families[spec["family"]] = type("SimFamilyBase", (jp.JSONPathEnvironment,), {"_sim_setup": (), "_sim_drop": (), "setup_function_extensions": family_setup})
+        cls = type("SimFamilyMember", (base,), {**attrs, "_sim_setup": tuple((n, f) for n, f in setup), "_sim_drop": tuple(spec.get("drop") or ())})
+        env = construct(cls)
+        for name, fspec in spec.get("funcs") or []:
+            env.function_extensions[name] = make_function(name, fspec, env, graves)
+        return env
     if attrs or setup:
         ns: Dict[str, Any] = dict(attrs)
         if setup:
